@@ -4,9 +4,29 @@ Pre-emption points are ``sys.settrace`` line events in frames of *simulated* cod
 (predicate on the code object's filename) plus explicit ``maybe_yield`` calls that
 instrumented code makes at split read-modify-writes.
 """
+import _thread
 import hashlib
 import sys
 import threading
+
+
+class _Sem:
+    """Binary semaphore on a raw lock (strict ping-pong protocol: every release is matched by one acquire)."""
+
+    __slots__ = ("l",)
+
+    def __init__(self):
+        self.l = _thread.allocate_lock()
+        self.l.acquire()
+
+    def acquire(self):
+        self.l.acquire()
+
+    def release(self):
+        try:
+            self.l.release()
+        except RuntimeError:
+            pass
 
 QUANTA = [1, 1, 2, 3, 5, 8, 20, 50, 200, 10 ** 9]
 POLICIES = ["random", "random", "roundrobin", "starve", "serial_perm", "pct"]
@@ -27,7 +47,7 @@ class Task:
     def __init__(self, idx, fn, group=0, make_thread=None, label=None):
         self.idx = idx
         self.fn = fn
-        self.sem = threading.Semaphore(0)
+        self.sem = _Sem()
         self.state = "runnable"   # runnable | barrier | done
         self.exc = None
         self.thread = None
@@ -56,7 +76,7 @@ class Baton:
         self.is_simulated = is_simulated
         self.stats = stats or Stats()
         self.policy = policy
-        self.sched_sem = threading.Semaphore(0)
+        self.sched_sem = _Sem()
         self.tasks = []
         self.cur = None
         self.quantum = 0
@@ -109,6 +129,8 @@ class Baton:
 
     def barrier(self):
         """__syncthreads() of the simulated GPU: wait until every live thread of the group arrived."""
+        if not self.active:
+            return
         t = self.cur
         t.state = "barrier"
         self.sched_sem.release()
